@@ -204,7 +204,7 @@ def fg_cases() -> list[dict[str, Any]]:
     return _fg_cases
 
 
-TRANSFORMS = ["forward", "revert_first", "revert_prev", "skip_step", "one_file_at_a_time", "touch_noise", "from_cache"]
+TRANSFORMS = corpus.TRANSFORMS + ["from_cache"]
 
 
 def gen_corpus(k: int, tier: str) -> dict[str, Any] | None:
